@@ -142,6 +142,7 @@ void *trampoline(void *p) {
     if (alt) { stack_t ss{}; ss.ss_sp = alt; ss.ss_size = altSize; sigaltstack(&ss, nullptr); }
     maybeDelay(t, gDelays.threadStart, gDelays.threadStartMaxUs, gCounters.threadStart);
     void *r = tr.fn(tr.arg);
+    maybeDelay(t, gDelays.threadExit, gDelays.threadStartMaxUs, gCounters.threadExit);
     if (alt) { stack_t ss{}; ss.ss_flags = SS_DISABLE; sigaltstack(&ss, nullptr); free(alt); }
     t->park.store(None);
     t->finished.store(1);
@@ -296,6 +297,14 @@ ThreadRec *self() {
 static inline ThreadRec *selfIfRegistered() { return tSelf; }
 ThreadRec *thread(int index) { return &table()[index]; }
 int threadCount() { return highWater.load(); }
+int unfinishedThreadsWithRole(int role) {
+    int n = 0, hw = highWater.load();
+    for (int i = 0; i < hw; ++i) {
+        ThreadRec &r = table()[i];
+        if (r.used.load() && !r.finished.load() && r.role.load() == role) ++n;
+    }
+    return n;
+}
 
 // Frees the records of finished threads for reuse. Call only while no thread
 // other than the caller (and the monitor) exists.
